@@ -96,6 +96,7 @@ class _Expanded(ast.Call):
 
 
 _UNSET = object()
+INT_STR_LIMIT_HITS: list = []  # conversions that ran into CPython's 4300-digit limit during the current evaluation
 _DIRECT_ARGS: set = set()  # ids of generator expressions written directly as call arguments (consumed by the callee at once)
 
 
@@ -461,6 +462,13 @@ class Folder:
         try:
             return self._fold(e)
         except (TypeError, AttributeError, ValueError, RecursionError) as ex:
+            if isinstance(ex, ValueError) and "integer string conversion" in str(ex):
+                # CPython refuses to render (or read) an integer of more than 4300 decimal digits: the evaluated program meets
+                # exactly this ValueError at this conversion
+                from .absint import Raised
+
+                INT_STR_LIMIT_HITS.append(unparse(e)[:80])
+                raise Raised("ValueError", e)
             # an operation of the host language on abstract values that this evaluation does not model
             raise Unfoldable("%s: %s(%s)" % (unparse(e)[:60], type(ex).__name__, ex))
         finally:
@@ -1237,6 +1245,11 @@ class Folder:
             from .absint import Raised
 
             raise Raised("TypeError", e)
+        if name in ("hex", "oct", "bin") and len(args) == 1 and name not in self.env:
+            v = self.fold(args[0])
+            if isinstance(v, int) and not isinstance(v, Abstract):
+                return {"hex": hex, "oct": oct, "bin": bin}[name](v)
+            raise Unfoldable(unparse(e))
         if name == "chr" and len(args) == 1 and "chr" not in self.env:
             v = self.fold(args[0])
             if isinstance(v, Abstract):
